@@ -2,10 +2,19 @@
 
 package fdosim
 
-import "runtime"
+import (
+	"runtime"
+	_ "unsafe" // go:linkname
+)
 
 func raceOff() { runtime.RaceDisable() }
 func raceOn()  { runtime.RaceEnable() }
 
 // RaceBuild reports whether the binary was built with -race.
 const RaceBuild = true
+
+// raceErrors returns the number of reports the race detector has made so far
+// in this process (what the testing package reads at the end of a test).
+//
+//go:linkname raceErrors internal/race.Errors
+func raceErrors() int
